@@ -155,6 +155,22 @@ def main():
             broken.append(dict(what=f"correspondence: model and implementation differ on {len(bad_ids)} case(s)",
                                detail=smp))
 
+    # generator / coverage sanity (DESIGN 3.5): a degenerate run must not report green
+    n_real = len([c for c in cases if c is not None])
+    if hasattr(mod, "coq_term") and model_ok and n_real > 0:
+        min_frac = getattr(mod, "MIN_CORR_FRACTION", 0.5)
+        if corr_total < min_frac * n_real:
+            broken.append(dict(what=f"correspondence covers only {corr_total} of {n_real} cases "
+                                    f"(< {int(min_frac * 100)} %): the model is not being exercised",
+                               detail=None))
+    if hasattr(mod, "sanity"):
+        try:
+            probs = mod.sanity(cases, obss)
+        except Exception:
+            probs = ["sanity() crashed: " + C.fmt_exc()]
+        for pr_ in probs or []:
+            broken.append(dict(what="input distribution degenerate: " + str(pr_), detail=None))
+
     # 4. decide -----------------------------------------------------------------
     if broken and not fails and hasattr(mod, "generate"):
         # violation search: widen the oracle-only exploration
